@@ -199,11 +199,13 @@ Proof.
   { split; cbn [c_nn c_buffer].
     - rewrite Hcn. pose proof (next_nn_id_range (c_nn c) (proj1 Hc)). lia.
     - right. rewrite Hcb. f_equal. congruence. }
-  destruct (read_sv_word_progress (mkCtrl (next_nn_id (c_nn c1)) (c_buffer c1)) w3 sv_sdram_sys_offset 255 255 Hc2 Ha3)
-    as (c3 & w4 & base & Hrd); try lia; try (rewrite S3a, S2a, Hm1; lia); try (vm_compute; split; congruence).
-  { exact Ha3. }
+  assert (Hb3 : 4 <= m_buffer (w_m w3) <= 1024) by (rewrite S3a, S2a, Hm1; exact Hbuf).
+  assert (Hoff : 0 <= sv_base + sv_sdram_sys_offset < 4294967296) by (vm_compute; split; congruence).
+  assert (H255 : 0 <= 255 < 256) by (split; [discriminate|reflexivity]).
+  destruct (read_sv_word_progress (mkCtrl (next_nn_id (c_nn c1)) (c_buffer c1)) w3 sv_sdram_sys_offset 255 255
+                                  Hc2 Ha3 Hb3 H255 H255 Hoff Ha3) as (c3 & w4 & base & Hrd).
   rewrite Hrd. cbn [bind].
-  apply read_sv_word_inv in Hrd; [|exact Hc2|rewrite S3a, S2a, Hm1; lia].
+  apply read_sv_word_inv in Hrd; [|exact Hc2|exact (proj1 Hb3)].
   destruct Hrd as (Hm4 & _ & _ & (xy & ch & _ & Hv) & _).
   rewrite mread_sdram_sys in Hv. rewrite S3b, S2b, Hm1 in Hv. rewrite of_le32_le32 in Hv by exact Hbase.
   inversion Hv; subst base. clear Hv.
@@ -219,4 +221,95 @@ Proof.
   { apply packable_bcast; [vm_compute; split; congruence|apply ffe1_word; exact Hpid|apply ffe2_word; assumption|apply closed_words]. }
   { apply mstep_answers; [split; reflexivity|exact Ha5|right; left; reflexivity]. }
   rewrite Hs6. cbn [bind]. eexists _, _; reflexivity.
+Qed.
+
+(* ---------------------------------------------------------------- what a fill keeps (further) *)
+Lemma alive_iff : forall m, alive m <-> m_chips m <> [].
+Proof. intros m. unfold alive. destruct (m_chips m); cbn; split; congruence. Qed.
+
+Lemma answers_kept : forall m m' flags aid,
+  machine_answers m -> same_static m m' -> map fst (m_chips m') = map fst (m_chips m) ->
+  (forall c s', core_at m' c = Some s' -> core_at m c = Some s' \/ exists data, s' = loaded_core flags aid data) ->
+  machine_answers m'.
+Proof.
+  intros m m' flags aid (Hne & Hv & Hs) (Sa & Sb & Sc) Hk Hc. split; [|split].
+  - apply alive_iff. eapply alive_keys; [exact Hk|apply alive_iff; exact Hne].
+  - rewrite Sc. exact Hv.
+  - intros c s' Hat. destruct (Hc c s' Hat) as [Ho|[data ->]]; [exact (Hs c s' Ho)|].
+    unfold loaded_core. cbn [cs_state]. destruct (Z.odd flags); reflexivity.
+Qed.
+
+Lemma fill_one_keeps_all : forall c w aid wait data ts c1 w1,
+  ctrl_wf c (w_m w) -> machine_wf (w_m w) -> machine_answers (w_m w) ->
+  binary_ok (m_buffer (w_m w)) data -> 0 <= aid < 256 ->
+  fill_one c w aid (ff_flags wait) data ts = Ok (c1, w1) ->
+  machine_wf (w_m w1) /\ ctrl_wf c1 (w_m w1) /\ same_static (w_m w) (w_m w1)
+  /\ map fst (m_chips (w_m w1)) = map fst (m_chips (w_m w)) /\ machine_answers (w_m w1).
+Proof.
+  intros c w aid wait data ts c1 w1 Hc Hm Hans Hbin Haid Hf.
+  assert (Hfl : 0 <= ff_flags wait < 64) by (destruct wait; vm_compute; split; congruence).
+  pose proof (fill_one_effect c w aid (ff_flags wait) data ts c1 w1 Hc Hm Hbin Haid Hfl Hf)
+    as (E1 & E2 & E3 & E4 & E5 & E6).
+  assert (Hcores : forall c0 s', core_at (w_m w1) c0 = Some s' ->
+            core_at (w_m w) c0 = Some s' \/ exists d, s' = loaded_core (ff_flags wait) aid d).
+  { intros [[x y] p] s' Hs. rewrite E4 in Hs. destruct (core_at (w_m w) (x, y, p)) as [old|]; [|discriminate].
+    cbn [option_map] in Hs. inversion Hs.
+    destruct (negb (chip_mem (x, y) (hd [] (m_sched (w_m w)))) && requested (cores_of_targets ts) x y p);
+      [right; exists data; reflexivity|left; reflexivity]. }
+  split; [apply (machine_wf_kept (w_m w) (w_m w1) (ff_flags wait) aid Hm E2 E3 Haid Hcores)|].
+  split; [|split; [exact E2|split; [exact E3|apply (answers_kept _ _ _ _ Hans E2 E3 Hcores)]]].
+  destruct E2 as (Sa & _). split; [rewrite E5; pose proof (next_nn_id_range (c_nn c) (proj1 Hc)); lia|].
+  right. rewrite E6, Sa. reflexivity.
+Qed.
+
+Lemma named_entry : forall am b ts c, In (b, ts) am -> In c (cores_of_targets ts) -> In (b, c) (named am).
+Proof.
+  intros am b ts c Hin Hc. unfold named. apply in_flat_map. exists (b, ts). split; [exact Hin|].
+  cbn [fst snd]. apply in_map. exact Hc.
+Qed.
+
+Lemma bins_ok_nth' : forall buffer bins b data,
+  bins_ok buffer bins -> nth_error bins b = Some data -> binary_ok buffer data.
+Proof.
+  intros buffer bins b data H E. unfold bins_ok in H. rewrite Forall_forall in H. apply H.
+  eapply nth_error_In. exact E.
+Qed.
+
+(* guards that travel through the loop *)
+Record going (bins : list (list Z)) (am : appmap) (m0 : machine) (c : ctrl) (m : machine) (unl : appmap) : Prop := {
+  go_ctrl : ctrl_wf c m;
+  go_wf : machine_wf m;
+  go_ans : machine_answers m;
+  go_static : same_static m0 m;
+  go_keys : map fst (m_chips m) = map fst (m_chips m0);
+  go_named : incl (named unl) (named am);
+  go_bins : incl (map fst unl) (map fst am) }.
+
+Lemma flood_fill_aplx_progress : forall bins am m0 aid wait unl c w,
+  map_wf am -> bins_ok (m_buffer m0) bins -> map_present bins m0 am -> 0 <= aid < 256 ->
+  going bins am m0 c (w_m w) unl ->
+  exists c' w', flood_fill_aplx bins c w unl aid wait = Ok (c', w') /\ going bins am m0 c' (w_m w') unl.
+Proof.
+  intros bins am m0 aid wait unl. induction unl as [|[b ts] r IH]; intros c w Hmap Hbins Hpres Haid G.
+  - eexists _, _. split; [reflexivity|exact G].
+  - cbn [flood_fill_aplx]. destruct G as [Gc Gw Ga (Sa & Sb & Sc) Gk Gn Gb].
+    destruct (proj1 Hpres b) as (data & Eb & Hfit); [apply Gb; left; reflexivity|]. rewrite Eb.
+    pose proof (bins_ok_nth' _ _ _ _ Hbins Eb) as Hbin. rewrite <- Sa in Hbin.
+    assert (Hsp : Forall in_space (cores_of_targets ts)).
+    { apply Forall_forall. intros [[x y] p] Hc0. apply (proj2 Hmap b x y p). apply Gn.
+      apply (named_entry ((b, ts) :: r) b ts); [left; reflexivity|exact Hc0]. }
+    assert (Hfl : 0 <= ff_flags wait < 64) by (destruct wait; vm_compute; split; congruence).
+    destruct (fill_one_progress c w aid (ff_flags wait) data ts Gc Gw (proj2 (alive_iff _) (proj1 Ga)) Hbin
+                                ltac:(rewrite Sb; change (2 ^ 32) with 4294967296 in Hfit; exact Hfit) Hsp Haid Hfl)
+      as (c1 & w1 & Hf).
+    rewrite Hf. cbn [bind fst snd].
+    destruct (fill_one_keeps_all c w aid wait data ts c1 w1 Gc Gw Ga Hbin Haid Hf) as (Hw1 & Hc1 & (Ta & Tb & Tc) & Hk1 & Ha1).
+    assert (G1 : going bins am m0 c1 (w_m w1) r).
+    { constructor; try assumption.
+      - repeat split; congruence.
+      - congruence.
+      - intros bc Hin. apply Gn. rewrite named_cons. apply in_or_app. right. exact Hin.
+      - intros b0 Hin. apply Gb. right. exact Hin. }
+    destruct (IH c1 w1 Hmap Hbins Hpres Haid G1) as (c' & w' & Hrun & G').
+    exists c', w'. split; [exact Hrun|]. destruct G'. constructor; try assumption.
 Qed.
